@@ -42,14 +42,14 @@ func volatileList() string {
 
 type histOut struct {
 	InitialPer    map[string]string `json:"initial_per"`
-	Initial       string     `json:"initial"`
-	InitialRest   string     `json:"initial_rest"`
-	Steps         []histStep `json:"steps"`
-	Lazy          string     `json:"lazy"`
-	Intact        string     `json:"intact"`
-	SourceDefault bool       `json:"source_default"`
-	SourceType    string     `json:"source_type"`
-	SourceAtStart bool       `json:"source_default_at_start"`
+	Initial       string            `json:"initial"`
+	InitialRest   string            `json:"initial_rest"`
+	Steps         []histStep        `json:"steps"`
+	Lazy          string            `json:"lazy"`
+	Intact        string            `json:"intact"`
+	SourceDefault bool              `json:"source_default"`
+	SourceType    string            `json:"source_type"`
+	SourceAtStart bool              `json:"source_default_at_start"`
 }
 
 // runHistory executes one call history in a fresh worker process.
